@@ -730,7 +730,7 @@ func init() {
 	}
 	vRegister(&vCheck{
 		ID: "C10", Level: "fault_enumeration", Engine: "crashmc",
-		Rule:        "For every history (0..2 quick / 0..3 thorough completed Add;Rotate;Flush rounds, optionally one completed compaction; in-flight operation = flush of one or of two more frozen memtables, or a compaction; templates flat+bm25+metadata and flat only) the in-flight operation is run once over the logging in-memory file system; then EVERY crash image is materialised: every prefix of its file-system operation log x every byte prefix of the write in progress (comet never syncs and the fault model is process death, so these are exactly the possible images). For each image: stale LOCK removed, store reopened with fresh templates (must succeed), every probe query must succeed, every document made durable by an earlier completed flush must be found, no never-added id, documents of the in-flight memtable must not be visible while their segment is incomplete (and all-or-none afterwards), and Add;Rotate;Flush on the reopened store must create a segment identifier above every identifier occurring in any file name of the image. Non-trivial = distinct crash images strictly inside the in-flight operation.",
+		Rule:        "For every history (0..2 quick / 0..3 thorough completed Add;Rotate;Flush rounds, optionally one completed compaction; in-flight operation = flush of one or of two more frozen memtables, or a compaction; templates flat+bm25+metadata and flat only) the in-flight operation is run once over the logging in-memory file system; then EVERY crash image is materialised: every prefix of its file-system operation log x every byte prefix of the write in progress (comet never syncs and the fault model is process death, so these are exactly the possible images). For each image: stale LOCK removed, store reopened with fresh templates (must succeed), every probe query must succeed, every document made durable by an earlier completed flush must be found, no never-added id, documents of the in-flight memtable must not be visible while their segment is incomplete (and all-or-none afterwards), and Add;Rotate;Flush on the reopened store must create a segment identifier above every identifier occurring in any file name of the image. Non-trivial = distinct crash images strictly inside the in-flight operation. Directory names: one completed round + in-flight flush in each of 12 directory names (brackets, blank, *, ?, backslash, dot-dot, non-ASCII, names that look like segment files).",
 		Assumptions: []string{"fault model: process death (what was handed to the OS survives); loss of unsynced pages on power failure is outside the statement", "in-memory file system trusted as a model of the POSIX subset comet uses"},
 		Shards: func(tier string) []vShard {
 			var sh []vShard
